@@ -23,7 +23,7 @@ func watchEvictions(cacheName string) *atomic.Int64 {
 	return n
 }
 
-var raceFrameRe = regexp.MustCompile(`^\s+(github\.com/vicanso/pike/[^\s(]+)`)
+var raceFrameRe = regexp.MustCompile(`^\s+(github\.com/vicanso/pike/.+)\(`)
 var lineNoRe = regexp.MustCompile(`:\d+( \+0x[0-9a-f]+)?$`)
 
 // raceReport one parsed data race report
